@@ -119,3 +119,68 @@ Definition ep_identify (v : pyval) : pyval :=
 
 Definition entries_images : list (str * (pyval -> pyval)) :=
   [ (lit "ops_images", ep_ops_images); (lit "load_images", ep_load_images); (lit "identify", ep_identify) ].
+
+(* ---------------- composeinfo variant forest *)
+From PM Require Import Model.Variants.
+
+Definition mk_heap (pool : list pyval) : option heap :=
+  let fix go (l : list pyval) : option (list vnode) :=
+      match l with
+      | [] => Some []
+      | PDict kv :: l' => match go l' with
+                          | Some r => Some ({| vn_fields := kv; vn_parent := None; vn_children := [] |} :: r)
+                          | None => None
+                          end
+      | _ => None
+      end in
+  match go pool with
+  | Some r => Some ({| vn_fields := []; vn_parent := None; vn_children := [] |} :: r)
+  | None => None
+  end.
+
+Definition snap_heap (h : heap) : pyval :=
+  PList (map (fun n => PList [match vn_parent n with Some p => PInt (Z.of_nat p) | None => PNone end;
+                              PDict (map (fun kv => (fst kv, PInt (Z.of_nat (snd kv)))) (vn_children n))]) h).
+
+Definition step_variants (h : heap) (op : pyval) : option (heap * result unit) :=
+  match op with
+  | PList [PInt c; PInt v; vid] =>
+      match get_opt_str vid with
+      | Some vid' => Some (variant_add h (Z.to_nat c) (Z.to_nat v) vid')
+      | None => None
+      end
+  | _ => None
+  end.
+
+Definition run_query (h : heap) (q : pyval) : pyval :=
+  match q with
+  | PList [PStr kind; PInt c; PStr name] =>
+      out_result (fun r => PInt (Z.of_nat r)) (getitem (S (length h)) h (Z.to_nat c) name)
+  | PList [PStr kind; PInt c; arch; PList types; PBool recursive] =>
+      match get_opt_str arch, get_strs types with
+      | Some a, Some ts => PList (map (fun r => PInt (Z.of_nat r)) (get_variants (S (length h)) h (Z.to_nat c) a ts recursive))
+      | _, _ => bad_input
+      end
+  | _ => bad_input
+  end.
+
+Definition ep_ops_variants (v : pyval) : pyval :=
+  match v with
+  | PList [PList pool; PList ops; PList queries] =>
+      match mk_heap pool with
+      | None => bad_input
+      | Some h0 =>
+          let '(hf, outs) :=
+            fold_left (fun acc op =>
+                         let '(h, out) := acc in
+                         match step_variants h op with
+                         | None => (h, out ++ [bad_input])
+                         | Some (h', Ok _) => (h', out ++ [PList [PStr (lit "ok"); snap_heap h']])
+                         | Some (h', Err e) => (h', out ++ [PList [PStr (lit "err"); PStr (exc_name e); snap_heap h']])
+                         end) ops (h0, []) in
+          PList [PList outs; PList (map (run_query hf) queries)]
+      end
+  | _ => bad_input
+  end.
+
+Definition entries_variants : list (str * (pyval -> pyval)) := [ (lit "ops_variants", ep_ops_variants) ].
